@@ -23,6 +23,16 @@ def sweeps(col, pp, mons, hdepth_quick=3, hdepth_thorough=4, track_path=False):
             e1.Explorer(pp, v, e1.W_DEFAULT, hist, alphabets.geometry_sweep(), mons, f'G/{name}',
                         track_path).run(1, col)
         e1.Explorer(pp, v, e1.W_DEFAULT, e1.seed_history_P(), alphabets.unit_sweep(), mons, 'U/S0', track_path).run(1, col)
+        # the same geometry sweep with every transfer performed as a single recipe step
+        e1.Explorer(pp, v, e1.W_DEFAULT, e1.seed_history_P(), alphabets.geometry_sweep()[::2], mons, 'G/S0/recipe', track_path,
+                    via_recipe=True).run(1, col)
+        # two versions of one plate: distinct objects carrying the same name are different plates
+        wv = dict(e1.W_DEFAULT, Pv=('plate', '500 uL', 2, 3, 'P'))
+        hv = e1.seed_history_P() + [alphabets.T('B', ['Pv', f"({r}, {c})"], f"{10 * (r + c)} uL") for r in (1, 2) for c in (1, 2, 3)]
+        vers = [alphabets.T(['Pv', a] if a != 'WHOLE' else 'Pv', ['P', b] if b != 'WHOLE' else 'P', q)
+                for a in alphabets.P_SLICES[::2] + ['WHOLE'] for b in alphabets.P_SLICES[1::2] + ['WHOLE', alphabets.P_SLICES[0]]
+                for q in ('4 uL', '1 mg')]
+        e1.Explorer(pp, v, wv, hv, vers, mons, 'V/same-named-plates', track_path).run(1, col)
         depth = hdepth_quick if col.tier == 'quick' else hdepth_thorough
         e1.Explorer(pp, v, e1.W_DEFAULT, e1.seed_history_P(), alphabets.history_alphabet(), mons, 'H',
                     track_path).run(depth, col)
